@@ -317,7 +317,8 @@ class C07Runner:
 		stamp = proj.sc.clock.advance(10**9)
 		for attempt in range(2 if st.get('twice') else 1):
 			# torn at an offset = a crash while the editor was saving; second attempt = same file, warm cache
-			proj.sc.write('src/zz_damaged.py', (st['text'] + '\n').encode('utf-8', 'replace'), stamp)
+			# (a text that imports its own module names it __main__ at the terminal and src.zz_damaged on disk)
+			proj.sc.write('src/zz_damaged.py', (st['text'].replace('__main__', module) + '\n').encode('utf-8', 'replace'), stamp)
 			rec = sim_process(proj.sc.root, disk_task(module, self.pool['modules'] + [module], st.get('mode', 'load'), None), timeout=120)
 			self.processes += 1
 			if rec['status'] == 'timeout':
@@ -370,7 +371,7 @@ class C07Runner:
 
 
 def base_texts(pool: dict[str, Any]) -> list[str]:
-	out = list(corpus.STANDALONE)
+	out = list(corpus.STANDALONE) + list(corpus.CYCLIC)
 	for m in pool['modules'][:3]:
 		t = pools.tag_of(m)
 		out.append(f'from {m} import make_{t}\ndef main_{t}(k: int) -> int:\n\tv = make_{t}()\n\tw = v.value\n\tu = w\n\txs = [u]\n\treturn k if k > 0 else len(xs)')
@@ -385,7 +386,7 @@ class C07(Engine):
 		'distinct_nontrivial = distinct (text, path kind) inputs delivered')
 	quick_runs = 330
 	thorough_runs = 4000
-	quick_budget_s = 100.0
+	quick_budget_s = 90.0
 	thorough_budget_s = 1500.0
 	components_real = ['Interactive.run/rebuild_module', 'bin/io.tty', 'Modules/ModuleLoader', 'SyntaxParserOfLark (disk and in-memory branches)', 'all preprocessors', 'Reflections', 'Py2Cpp/Procedure', 'ErrorRender', 'Runner']
 	components_stubbed = Engine.components_stubbed + ['rogw.tranp.bin.io.readline replaced by the simulated terminal (the real one spawns bash per line)']
@@ -398,6 +399,7 @@ class C07(Engine):
 		V = lambda t: {'kind': 'valid', 'text': t}
 		cases.append({'pool': pool, 'steps': [V(t) for t in base]})
 		cases.append({'pool': pool, 'steps': [V(base[0]), {'kind': 'corrupt', 'corruption': 'truncate', 'text': 'def f(k: int) -> int:\n\treturn (k +'}, V(base[0]), {'kind': 'corrupt', 'corruption': 'flip', 'text': 'def f(k: int) -> int:\n\treturn k $ 1'}, V(base[1])]})
+		cases.append({'pool': pool, 'steps': [V(corpus.CYCLIC[0]), V(base[0]), V(corpus.CYCLIC[0]), V(corpus.CYCLIC[0]), V(base[1])]})
 		cases.append({'pool': pool, 'steps': [V(base[1]), {'kind': 'corrupt', 'corruption': 'indent', 'text': 'def f(k: int) -> int:\n\t\t\treturn k\n\treturn k'}, V(base[1])]})
 		for i in range(0, len(corpus.ILL_TYPED), 4):
 			# every ill-typed text also goes through the disk path (where the error block quotes the source file)
